@@ -5,7 +5,7 @@ CONSTANTS
   VsVals = {1, 2}
   RecVals = {1}
   BulkSizes = {127, 140}
-  MaxSolv = 2
+  MaxSolv = 1
   MaxUnion = 1
   MaxVs = 2
 INVARIANTS InternUnique RetInRange
